@@ -55,6 +55,11 @@ def make_classes(spec: list) -> list:
         for s in c["signals"]:
             ns[s["attr"]] = Signal(EVS[s["ev"]])
         base = out[c["base"]] if c.get("base") is not None else object
+        if c.get("falsy") == "len":
+            # an owner that is an (empty) container: a perfectly good, falsy instance
+            ns["__len__"] = lambda self: 0
+        elif c.get("falsy") == "bool":
+            ns["__bool__"] = lambda self: False
         out.append(type(c["name"], (base,), ns))
     return out
 
@@ -246,7 +251,14 @@ class H:
                 attr = a[2]
                 res = {}
                 d = getattr(cls, attr)
-                for what in ("dispatch", "stream", "wait", "module_stream"):
+                whats = ["dispatch", "stream", "wait", "module_stream"]
+                bound = None
+                if len(a) > 3 and a[3]:
+                    # a bound signal listed *before* the class-level one: the call must fail
+                    # as a whole and leave the bound channel exactly as it was
+                    bound = self.sig(a[3])
+                    whats += ["mixed_stream", "mixed_wait"]
+                for what in whats:
                     try:
                         if what == "dispatch":
                             d.dispatch(Ev0(0))
@@ -256,6 +268,12 @@ class H:
                         elif what == "wait":
                             with move_on_after(0.25):
                                 await d.wait_event()
+                        elif what == "mixed_stream":
+                            async with stream_events([bound, d]):
+                                pass
+                        elif what == "mixed_wait":
+                            with move_on_after(0.25):
+                                await wait_event([bound, d])
                         else:
                             async with stream_events([d]):
                                 pass
@@ -267,6 +285,8 @@ class H:
                             raise
                         res[what] = type(e).__name__
                 sim.log("unbound", cls=a[1], attr=attr, res=res, is_declaration=isinstance(d, Signal))
+                if bound is not None:
+                    self.dispatch(a[3])
             elif op == "gcprobe":
                 await self.gcprobe(a[1])
 
@@ -625,7 +645,10 @@ def gen(rng: random.Random, tier: str, prop: str) -> dict:
         if ci > 0 and rng.random() < 0.4:
             base = rng.randrange(ci)
         attrs = rng.sample(["a", "b", "c", "d"], rng.choice((1, 2, 2, 3)))
-        classes.append({"name": f"S{ci}", "base": base, "signals": [{"attr": a, "ev": rng.choice((0, 1, 1))} for a in attrs]})
+        cspec: dict[str, Any] = {"name": f"S{ci}", "base": base, "signals": [{"attr": a, "ev": rng.choice((0, 1, 1))} for a in attrs]}
+        if rng.random() < 0.15:
+            cspec["falsy"] = rng.choice(("len", "bool"))
+        classes.append(cspec)
     ninst = rng.choice((1, 2, 2, 3))
     instances = [{"id": f"i{k}", "cls": rng.randrange(ncls)} for k in range(ninst)]
     chans = []
@@ -703,7 +726,10 @@ def gen(rng: random.Random, tier: str, prop: str) -> dict:
             macts.append(["ident"])
         elif r < 0.8:
             ci = rng.randrange(ncls)
-            macts.append(["unbound", ci, rng.choice(sorted(declared(classes, ci)))])
+            ub = ["unbound", ci, rng.choice(sorted(declared(classes, ci)))]
+            if rng.random() < 0.5:
+                ub.append(list(rng.choice(hot if rng.random() < 0.7 else chans)))
+            macts.append(ub)
         else:
             macts.append(["gcprobe", {"cls": rng.randrange(ncls), "rounds": rng.choice((1, 2, 3))}])
     if macts:
